@@ -584,7 +584,7 @@ const LONG_REFUSAL: [usize; 6] = [33, 34, 35, 36, 37, 38];
 /// Long names against patterns whose whole-path match needs the engine to give up many partial
 /// matches first: a prefix-first alternation followed by an ambiguous starred group,
 /// `.*/(b|bc*d)(T)*` with T in c|cc, cc|c, c?, c{1,2}; names b c^n d (in the language),
-/// b c^n x (not), b c^n (in) for every n up to the exact bound: the answer must be exact. For two
+/// b c^n x (not), b c^n (in) for every n up to the exact bound: the answer must be exact. For six
 /// longer names the engine may give up, but then loudly (diagnostic naming the path, exit status
 /// != 0, path not selected) — never a silent wrong answer.
 fn long_name_slice(ctx: &mut Ctx, all: bool) {
